@@ -3,7 +3,8 @@ import RpmVerif.Model.Header
 /-! Driver for C04. Op `hostile BYTES`. The implementation's observation lists an outcome class per
 read-side stage; the model predicts the parse stages (ok / err — it has no reachable panic, Props/C04)
 and copies the classes of stages it does not model. Spec: no stage may be `panic`, the process may not
-die (`abort`) and no single allocation may exceed 64 MiB + 16·|input| (`alloc-excess`). -/
+die (`abort`), no single allocation may exceed 64 MiB + 16·|input| (`alloc-excess`), and the file iterator must
+end even for a consumer that keeps pulling after an error (`iter=runaway`: unbounded work / memory). -/
 namespace RpmVerif.Driver.C04
 open RpmVerif.Hdr RpmVerif.Driver
 
@@ -20,7 +21,7 @@ def handle (_op : String) (args : List String) (impl : String) : String :=
       let pm := clsOf (parsePackage bs)
       let mm := clsOf (parseMetadata bs)
       let toks := (impl.splitOn " ").filter (· ≠ "")
-      let bad := toks.filter fun t => t == "abort" || t == "alloc-excess" || t.endsWith "=panic"
+      let bad := toks.filter fun t => t == "abort" || t == "alloc-excess" || t.endsWith "=panic" || t == "iter=runaway"
       let rest := toks.filter fun t => !(t.startsWith "parse=" || t.startsWith "meta=")
       let model := " ".intercalate ([s!"parse={pm}", s!"meta={mm}"] ++ rest.filter (fun t => t != "abort" && t != "alloc-excess"))
       let verdict := match bad with
